@@ -434,6 +434,9 @@ pub struct Bus {
     pub calls: Vec<Call>,
     /// `AddMatch` of a rule string that was already registered (rule, count after).
     pub double_adds: Vec<(String, usize)>,
+    /// Refuse the next N AddMatch calls with LimitsExceeded (as a bus whose per-connection match
+    /// rule limit is reached does).
+    pub refuse_add_match: usize,
     /// Armed peer action (see `Armed`); disarmed when it fires.
     pub armed: Option<Armed>,
     /// How often an armed action has fired.
@@ -466,6 +469,7 @@ impl Bus {
             consumed: 0,
             calls: vec![],
             double_adds: vec![],
+            refuse_add_match: 0,
             armed: None,
             armed_fired: 0,
             hold: vec![],
@@ -777,6 +781,12 @@ impl Bus {
                 call.answer = format!("ok:{US}");
             }
             "AddMatch" => match one() {
+                Some(rule) if self.refuse_add_match > 0 => {
+                    self.refuse_add_match -= 1;
+                    call.args = vec![rule];
+                    call.answer = "err:org.freedesktop.DBus.Error.LimitsExceeded".into();
+                    self.reply_err(&m, "org.freedesktop.DBus.Error.LimitsExceeded", "Connection is not allowed to add more match rules");
+                }
                 Some(rule) => {
                     if let Err(e) = parse_rule(&rule) {
                         self.errors.push(e);
